@@ -418,6 +418,11 @@ func defaultCtorJobs(prop string, q bool, add func(kind, id string, w int, s map
 	for _, m := range []int{3, 5} {
 		add("kv", fmt.Sprintf("btree%d.New.u%d", m, u), u, map[string]string{"c": "btree", "ctor": "default"}, map[string]int{"u": u, "m": m})
 	}
+	// float64 keys with NaN, -Inf/+Inf through the default constructors (cmp.Compare orders NaN first)
+	for _, c := range []string{"rbt", "avl", "treemap"} {
+		add("kv", c+".New.float64", 3, map[string]string{"c": c, "ctor": "default", "elem": "float"}, nil)
+	}
+	add("kv", "btree3.New.float64", 3, map[string]string{"c": "btree", "ctor": "default", "elem": "float"}, map[string]int{"m": 3})
 }
 
 func bidiJobs(prop string, q bool, add func(kind, id string, w int, s map[string]string, p map[string]int)) {
